@@ -377,6 +377,84 @@ func VerifH_C18_bindConstants_type() {
 	}
 }
 
+// The result type bindConstants derives is a function of the argument types of that use alone: the item
+// property carries exactly the item type of the first argument and the constants property the second
+// argument's type, also when an earlier use in the same process had different argument types of the same
+// name (schema names identify objects by id and everything else by its type id only).
+func VerifH_C18_bindConstants_type_history() {
+	mk := func(k int) schema.Type {
+		switch k {
+		case 0:
+			return schema.NewIntSchema(nil, nil, nil)
+		case 1:
+			return schema.NewIntSchema(schema.IntPointer(5), nil, nil) // same name "integer", other bounds
+		case 2:
+			return schema.NewMapSchema(schema.NewStringSchema(nil, nil, nil), schema.NewIntSchema(nil, nil, nil), nil, nil)
+		case 3:
+			return schema.NewMapSchema(schema.NewStringSchema(nil, nil, nil), schema.NewStringSchema(nil, nil, nil), nil, nil)
+		case 4:
+			return schema.NewObjectSchema("o", map[string]*schema.PropertySchema{"name": schema.NewPropertySchema(schema.NewStringSchema(nil, nil, nil), nil, true, nil, nil, nil, nil, nil)})
+		}
+		return schema.NewObjectSchema("o", map[string]*schema.PropertySchema{"count": schema.NewPropertySchema(schema.NewIntSchema(nil, nil, nil), nil, true, nil, nil, nil, nil, nil)})
+	}
+	for use := 0; use < 2; use++ {
+		item, constants := mk(verifrt.Choice("item-type", 6)), mk(verifrt.Choice("constants-type", 6))
+		t, err := HandleTypeSchemaCombine([]schema.Type{schema.NewListSchema(item, nil, nil), constants})
+		verifrt.Assert(err == nil && t != nil, "HandleTypeSchemaCombine accepts (list, T)")
+		l, ok := t.(*schema.ListSchema)
+		verifrt.Assert(ok, "the derived type is a list")
+		if !ok {
+			return
+		}
+		o, ok := schema.ConvertToObjectSchema(l.ItemsValue)
+		verifrt.Assert(ok, "the derived type is a list of objects")
+		if !ok {
+			return
+		}
+		props := o.Properties()
+		verifrt.Assert(len(props) == 2 && props[CombinedObjPropertyItemName] != nil && props[CombinedObjPropertyConstantName] != nil, "the derived object has the item and the constants property")
+		if props[CombinedObjPropertyItemName] == nil || props[CombinedObjPropertyConstantName] == nil {
+			return
+		}
+		verifrt.Assert(verifSameType(props[CombinedObjPropertyItemName].Type(), item), "the item property has the item type of this use's first argument")
+		verifrt.Assert(verifSameType(props[CombinedObjPropertyConstantName].Type(), constants), "the constants property has the type of this use's second argument")
+		if use == 1 {
+			verifrt.Reach("second-use")
+		}
+	}
+}
+
+// verifSameType compares the types the harness above builds by structure (an implementation may copy them).
+func verifSameType(a, b schema.Type) bool {
+	if a == nil || b == nil || a.TypeID() != b.TypeID() {
+		return false
+	}
+	switch x := a.(type) {
+	case *schema.IntSchema:
+		y, ok := b.(*schema.IntSchema)
+		if !ok || (x.Min() == nil) != (y.Min() == nil) {
+			return false
+		}
+		return x.Min() == nil || *x.Min() == *y.Min()
+	case *schema.MapSchema[schema.Type, schema.Type]:
+		y, ok := b.(*schema.MapSchema[schema.Type, schema.Type])
+		return ok && x.Values().TypeID() == y.Values().TypeID() && x.Keys().TypeID() == y.Keys().TypeID()
+	}
+	if xo, ok := schema.ConvertToObjectSchema(a); ok {
+		yo, ok := schema.ConvertToObjectSchema(b)
+		if !ok || xo.ID() != yo.ID() || len(xo.Properties()) != len(yo.Properties()) {
+			return false
+		}
+		for name := range xo.Properties() {
+			if yo.Properties()[name] == nil {
+				return false
+			}
+		}
+		return true
+	}
+	return true
+}
+
 // floatToString / stringToFloat on the special values of binary64 (the decimal digits of FormatFloat are
 // not modelled symbolically, so this law is checked on concrete probes: every class of value and the
 // boundaries between them): the round trip is the identity, including the sign of zero.
